@@ -37,6 +37,29 @@ type lockEdge struct {
 	fromSite   uint32
 	toSite     uint32
 	reportedTo []uintptr
+	// ephemeral: one of the locks does not live in a package-level variable;
+	// its address may be reused, so the edge is forgotten when the run ends
+	ephemeral bool
+}
+
+func staticAddr(a uintptr) bool {
+	for _, r := range staticRanges {
+		if a >= r.lo && a < r.hi {
+			return true
+		}
+	}
+	return false
+}
+
+func dropEphemeralLockEdges() {
+	k := 0
+	for _, e := range lockGraph {
+		if !e.ephemeral {
+			lockGraph[k] = e
+			k++
+		}
+	}
+	lockGraph = lockGraph[:k]
 }
 
 // lockGraph lives for the whole process: package-level mutexes keep their
@@ -103,7 +126,8 @@ func (s *Sim) addLockEdge(t *Task, h heldLock, to uintptr, toSite uint32, hi int
 			return
 		}
 	}
-	e := &lockEdge{from: h.addr, to: to, guards: guards, op: t.OpKind, fromSite: h.site, toSite: toSite}
+	e := &lockEdge{from: h.addr, to: to, guards: guards, op: t.OpKind, fromSite: h.site, toSite: toSite,
+		ephemeral: !staticAddr(h.addr) || !staticAddr(to)}
 	lockGraph = append(lockGraph, e)
 	s.checkCycle(t, e)
 }
